@@ -83,7 +83,7 @@ Header == [hdr |-> TRUE, W |-> CW, H |-> CH, shapes |-> Shapes, views |-> Views,
 \* draws and programs
 \* ---------------------------------------------------------------------------------------------
 RawDraws == IF Profile = "c12"
-  THEN [shape: 1..6, view: 1..6, cs: {0}, fill: {"none","black","red","redh","dred"}, stroke: {"none","blue","blueh"},
+  THEN [shape: 1..6, view: 1..6, cs: {0}, fill: {"none","black","red","redh","dred"}, stroke: {"none","blue","blueh","red"},   \* 933 120 draws: TLC enumerates sets up to 10^6
         width: {1,2}, cap: 0..2, join: 0..5, dash: 0..2, off: {-1,0,1}, rule: {0,1}, img: {0,0,1}]
   ELSE [shape: 1..NShapes, view: {1,2,3,4,5,6,8}, cs: 0..3, fill: {"none","red","green","grey","black"}, stroke: {"none","none","blue"},
         width: {1,2}, cap: {0}, join: {2,3}, dash: {0}, off: {0}, rule: 0..3, img: {0}]
@@ -93,7 +93,8 @@ RawDraws == IF Profile = "c12"
 Fix(d0) == LET d == IF d0.dash = 0 THEN [d0 EXCEPT !.off = 0] ELSE d0 IN
            IF d.fill = "none" /\ d.stroke = "none" THEN [d EXCEPT !.fill = "black"] ELSE d
 SolidOff == [shape: {1}, view: {1, 3}, cs: {0}, fill: {"none", "red"}, stroke: {"blue"}, width: {2}, cap: {0}, join: {0, 4}, dash: {0}, off: {-1, 1}, rule: {0}, img: {0}]
-SubStyles == { Fix(d) : d \in [shape: {1}, view: {1}, cs: {0}, fill: {"none","red","redh"}, stroke: {"none","blue","blueh"},
+\* (fill and stroke share the colours red and blue: a back-end with ONE current colour (PostScript) must re-emit it after grestore)
+SubStyles == { Fix(d) : d \in [shape: {1}, view: {1}, cs: {0}, fill: {"none","red","redh"}, stroke: {"none","blue","blueh","red"},
                                width: {1}, cap: {0}, join: {0,3}, dash: {0,1}, off: {0}, rule: {0,1}, img: {0}] }
 SubStylesBig == { Fix(d) : d \in [shape: {1,4}, view: {1,3}, cs: {0}, fill: {"none","red","redh","dred"}, stroke: {"none","blue","blueh"},
                                width: {1}, cap: {0}, join: {0,2}, dash: {0,1}, off: {0}, rule: {0,1}, img: {0,1}] }
